@@ -1,4 +1,5 @@
 import asyncio
+import collections.abc
 import functools
 import inspect
 import opcode
@@ -453,6 +454,49 @@ class CoroStart(Awaitable[T_co]):
             return self
 
 
+class _EagerContinuation(collections.abc.Coroutine):  # type: ignore[type-arg]
+    """
+    The coroutine which `coro_eager()` hands to a Task to continue a coroutine
+    that `CoroStart` has already started.  It is `await cs`, with one difference
+    to a plain `async def` wrapper: an exception thrown into it *before* it
+    was first resumed - `Task.cancel()` before the Task got to run - is
+    delivered to the started coroutine at its suspension point, instead of
+    ending the wrapper without ever reaching the coroutine, which would be left
+    suspended with its `except` and `finally` clauses never run.
+    """
+
+    __slots__ = ["_cs", "_it"]
+
+    def __init__(self, cs: "CoroStart[Any]") -> None:
+        self._cs = cs
+        self._it: Optional[Generator[Any, Any, Any]] = None
+
+    def __await__(self) -> Generator[Any, Any, Any]:
+        return (yield from self._iterator())
+
+    def _iterator(self) -> Generator[Any, Any, Any]:
+        if self._it is None:
+            self._it = self._cs.__await__()
+        return self._it
+
+    def send(self, value: Any) -> Any:
+        return self._iterator().send(value)
+
+    def throw(self, *args: Any) -> Any:  # type: ignore[override]
+        if self._it is None:
+            # not resumed yet: step into the relay loop, which now stands where
+            # the started coroutine is suspended, then deliver the exception there
+            _future_unblock(self._iterator().send(None))
+        assert self._it is not None
+        return self._it.throw(*args)
+
+    def close(self) -> None:
+        if self._it is None:
+            self._cs.close()
+        else:
+            self._it.close()
+
+
 async def coro_await(
     coro: Coroutine[Any, Any, T], *, context: Optional[Context] = None
 ) -> T:
@@ -486,8 +530,8 @@ def coro_eager(
         return cs.as_future()
 
     if task_factory:
-        return task_factory(cs.as_coroutine())
-    return create_task(cs.as_coroutine(), name="eager_task")
+        return task_factory(_EagerContinuation(cs))
+    return create_task(_EagerContinuation(cs), name="eager_task")
 
 
 def func_eager(
